@@ -75,9 +75,10 @@ def posLit : Expr → Bool
   | .int _ c => decide (0 < c)
   | _ => false
 
-/-- `var vLimit = limit; for (var v = init; v < vLimit; v += incr) {…}` -/
-def rangeStmts (names : Bytes × Bytes) (limit init incr : JsExpr) (body : JsStmts) : JsStmts :=
-  .cons (.var names.2 limit) (.one (.forStep names.1 names.2 init incr body))
+/-- `var vLimit = limit; var vStep = incr; for (var v = init, vIndex = 0; v < vLimit; v += vStep, vIndex++) {…}` -/
+def rangeStmts (names : Bytes × Bytes × Bytes × Bytes) (limit init incr : JsExpr) (body : JsStmts) : JsStmts :=
+  .cons (.var names.2.1 limit) (.cons (.var names.2.2.1 incr)
+    (.one (.forStep names.1 names.2.1 names.2.2.1 names.2.2.2 init body)))
 
 /-- `{for $v in range(…)}` from the translation of its body (in the loop's frame): one to three
     arguments, the step absent or a positive literal -/
@@ -256,10 +257,11 @@ mutual
       [.fixed (spaces ind), .fixed b!"for (var ", .ident i, .fixed b!" = 0; ", .ident i, .fixed b!" < ", .ident lim,
         .fixed b!"; ", .ident i, .fixed b!"++) {", .fixed [10]] ++ renderStmts (ind + 1) body ++
         [.fixed (spaces ind), .fixed b!"}", .fixed [10]]
-    | .forStep i lim init incr body =>
+    | .forStep i lim step idx init body =>
       [.fixed (spaces ind), .fixed b!"for (var ", .ident i, .fixed b!" = "] ++ render init ++
-        [.fixed b!"; ", .ident i, .fixed b!" < ", .ident lim, .fixed b!"; ", .ident i, .fixed b!" += "] ++ render incr ++
-        [.fixed b!") {", .fixed [10]] ++ renderStmts (ind + 1) body ++ [.fixed (spaces ind), .fixed b!"}", .fixed [10]]
+        [.fixed b!", ", .ident idx, .fixed b!" = 0; ", .ident i, .fixed b!" < ", .ident lim, .fixed b!"; ", .ident i,
+          .fixed b!" += ", .ident step, .fixed b!", ", .ident idx, .fixed b!"++) {", .fixed [10]] ++
+        renderStmts (ind + 1) body ++ [.fixed (spaces ind), .fixed b!"}", .fixed [10]]
     | .switchS e cases =>
       [.fixed (spaces ind), .fixed b!"switch ("] ++ render e ++ [.fixed b!") {", .fixed [10]] ++ renderCases (ind + 1) cases ++
         [.fixed (spaces ind), .fixed b!"}", .fixed [10]]
@@ -730,7 +732,7 @@ theorem forc_range_runs (p : Nat) (v : Bytes) (list : Expr) (body : Block) (args
     (Runs.block (walkExpr_renders sk o sc _ ji hji) (Runs.block (walkExpr_renders sk o sc _ jc hjc)
       (Runs.getScope ?_))))).cast (List.nil_append _)
   try dsimp only
-  exact (Runs.seq (Runs.setScope _) (Runs.seq Runs.indentP (Runs.seq (Runs.fx _) (Runs.seq (Runs.emit _) (Runs.seq (Runs.fx _) (Runs.seq (Runs.emits _) (Runs.seq (Runs.fx _) (Runs.seq Runs.nl (Runs.seq Runs.indentP (Runs.seq (Runs.fx _) (Runs.seq (Runs.emit _) (Runs.seq (Runs.fx _) (Runs.seq (Runs.emits _) (Runs.seq (Runs.fx _) (Runs.seq (Runs.emit _) (Runs.seq (Runs.fx _) (Runs.seq (Runs.emit _) (Runs.seq (Runs.fx _) (Runs.seq (Runs.emit _) (Runs.seq (Runs.fx _) (Runs.seq (Runs.emits _) (Runs.seq (Runs.fx _) (Runs.seq Runs.nl (Runs.seq Runs.incIndent (Runs.seq hb (Runs.seq Runs.decIndent (Runs.seq Runs.indentP (Runs.seq (Runs.fx _) (Runs.seq Runs.nl (Runs.popScope)))))))))))))))))))))))))))))).cast
+  exact (Runs.seq (Runs.setScope _) (Runs.seq Runs.indentP (Runs.seq (Runs.fx _) (Runs.seq (Runs.emit _) (Runs.seq (Runs.fx _) (Runs.seq (Runs.emits _) (Runs.seq (Runs.fx _) (Runs.seq Runs.nl (Runs.seq Runs.indentP (Runs.seq (Runs.fx _) (Runs.seq (Runs.emit _) (Runs.seq (Runs.fx _) (Runs.seq (Runs.emits _) (Runs.seq (Runs.fx _) (Runs.seq Runs.nl (Runs.seq Runs.indentP (Runs.seq (Runs.fx _) (Runs.seq (Runs.emit _) (Runs.seq (Runs.fx _) (Runs.seq (Runs.emits _) (Runs.seq (Runs.fx _) (Runs.seq (Runs.emit _) (Runs.seq (Runs.fx _) (Runs.seq (Runs.emit _) (Runs.seq (Runs.fx _) (Runs.seq (Runs.emit _) (Runs.seq (Runs.fx _) (Runs.seq (Runs.emit _) (Runs.seq (Runs.fx _) (Runs.seq (Runs.emit _) (Runs.seq (Runs.fx _) (Runs.seq (Runs.emit _) (Runs.seq (Runs.fx _) (Runs.seq Runs.nl (Runs.seq Runs.incIndent (Runs.seq hb (Runs.seq Runs.decIndent (Runs.seq Runs.indentP (Runs.seq (Runs.fx _) (Runs.seq Runs.nl (Runs.popScope))))))))))))))))))))))))))))))))))))))))).cast
     (by simp [rangeStmts, renderStmts, renderStmt, JsStmts.one])
 
 /-! ### switch -/
@@ -1061,11 +1063,11 @@ theorem jsname_dollar (k use : Bytes) (m : Nat) : (Scope.jsname k use m).contain
   simp [Scope.jsname]
 
 /-- the `use` parts of scope.go: a variable, a loop's list / limit / index -/
-def IsUse (use : Bytes) : Prop := use = [] ∨ use = b!"List" ∨ use = b!"Limit" ∨ use = b!"Index"
+def IsUse (use : Bytes) : Prop := use = [] ∨ use = b!"List" ∨ use = b!"Limit" ∨ use = b!"Index" ∨ use = b!"Step"
 
-theorem natDigits_head_digit (m : Nat) (c : UInt8) (r : Bytes) (h : F64.natDigits m = c :: r) : c ≠ 76 ∧ c ≠ 73 := by
+theorem natDigits_head_digit (m : Nat) (c : UInt8) (r : Bytes) (h : F64.natDigits m = c :: r) : c ≠ 76 ∧ c ≠ 73 ∧ c ≠ 83 := by
   have := (SoyVerif.Lemmas.JsonValue.natDigits_shape m).2.1 c (by rw [h]; simp)
-  constructor <;> (rintro rfl; revert this; decide)
+  refine ⟨?_, ?_, ?_⟩ <;> (rintro rfl; revert this; decide)
 
 /-- the parts of a generated name determine it -/
 theorem jsname_inj_all {x x' u u' : Bytes} {m m' : Nat} (hx : x.contains 36 = false) (hx' : x'.contains 36 = false)
@@ -1073,14 +1075,16 @@ theorem jsname_inj_all {x x' u u' : Bytes} {m m' : Nat} (hx : x.contains 36 = fa
   have hxx := C04c.jsname_inj hx hx' h
   subst hxx
   have e : u ++ F64.natDigits m = u' ++ F64.natDigits m' := by simpa [Scope.jsname] using h
-  rcases hu with rfl | rfl | rfl | rfl <;> rcases hu' with rfl | rfl | rfl | rfl
+  rcases hu with rfl | rfl | rfl | rfl | rfl <;> rcases hu' with rfl | rfl | rfl | rfl | rfl
   all_goals first
     | exact ⟨rfl, rfl, natDigits_inj (by simpa using e)⟩
     | (exfalso; simp at e; done)
     | (exfalso; exact (natDigits_head_digit _ _ _ e).1 rfl)
-    | (exfalso; exact (natDigits_head_digit _ _ _ e).2 rfl)
+    | (exfalso; exact (natDigits_head_digit _ _ _ e).2.1 rfl)
+    | (exfalso; exact (natDigits_head_digit _ _ _ e).2.2 rfl)
     | (exfalso; exact (natDigits_head_digit _ _ _ e.symm).1 rfl)
-    | (exfalso; exact (natDigits_head_digit _ _ _ e.symm).2 rfl)
+    | (exfalso; exact (natDigits_head_digit _ _ _ e.symm).2.1 rfl)
+    | (exfalso; exact (natDigits_head_digit _ _ _ e.symm).2.2 rfl)
 
 /-- `g` is none of the names generated after the counter was `lo` -/
 def Old (lo : Nat) (g : Bytes) : Prop :=
@@ -1202,7 +1206,7 @@ theorem scOk_pushForEach {sc : Scope} (h : ScOk sc) (v : Bytes) (hv : v.contains
   simp only [Scope.pushForEach, List.mem_cons] at hf
   rcases hf with rfl | hf
   · rcases frameSet_mem _ _ _ kv hkv with rfl | hkv
-    · exact ⟨fun hk => by simp [Scope.kIndex] at hk, old_jsname hv (Or.inr (Or.inr (Or.inr rfl))) (Nat.le_refl _)⟩
+    · exact ⟨fun hk => by simp [Scope.kIndex] at hk, old_jsname hv (Or.inr (Or.inr (Or.inr (Or.inl rfl)))) (Nat.le_refl _)⟩
     · rcases frameSet_mem _ _ _ kv hkv with rfl | hkv
       · exact ⟨fun hk => by simp [Scope.kLimit] at hk, old_jsname hv (Or.inr (Or.inr (Or.inl rfl))) (Nat.le_refl _)⟩
       · rcases frameSet_mem _ _ _ kv hkv with rfl | hkv
@@ -1217,12 +1221,16 @@ theorem scOk_pushForRange {sc : Scope} (h : ScOk sc) (v : Bytes) (hv : v.contain
   simp only [Scope.pushForRange, List.mem_cons] at hf
   rcases hf with rfl | hf
   · rcases frameSet_mem _ _ _ kv hkv with rfl | hkv
-    · exact ⟨fun hk => by simp [Scope.kIndex] at hk, old_jsname hv (Or.inl rfl) (Nat.le_refl _)⟩
+    · exact ⟨fun hk => by simp [Scope.kVar] at hk, old_jsname hv (Or.inl rfl) (Nat.le_refl _)⟩
     · rcases frameSet_mem _ _ _ kv hkv with rfl | hkv
-      · exact ⟨fun hk => by simp [Scope.kLimit] at hk, old_jsname hv (Or.inr (Or.inr (Or.inl rfl))) (Nat.le_refl _)⟩
+      · exact ⟨fun hk => by simp [Scope.kIndex] at hk, old_jsname hv (Or.inr (Or.inr (Or.inr (Or.inl rfl)))) (Nat.le_refl _)⟩
       · rcases frameSet_mem _ _ _ kv hkv with rfl | hkv
-        · exact ⟨fun _ => ⟨sc.n + 1, Nat.le_refl _, rfl⟩, old_jsname hv (Or.inl rfl) (Nat.le_refl _)⟩
-        · cases hkv
+        · exact ⟨fun hk => by simp [Scope.kStep] at hk, old_jsname hv (Or.inr (Or.inr (Or.inr (Or.inr rfl)))) (Nat.le_refl _)⟩
+        · rcases frameSet_mem _ _ _ kv hkv with rfl | hkv
+          · exact ⟨fun hk => by simp [Scope.kLimit] at hk, old_jsname hv (Or.inr (Or.inr (Or.inl rfl))) (Nat.le_refl _)⟩
+          · rcases frameSet_mem _ _ _ kv hkv with rfl | hkv
+            · exact ⟨fun _ => ⟨sc.n + 1, Nat.le_refl _, rfl⟩, old_jsname hv (Or.inl rfl) (Nat.le_refl _)⟩
+            · cases hkv
   · exact ⟨(h.2 f hf kv hkv).1.mono (Nat.le_succ _), (h.2 f hf kv hkv).2.mono (Nat.le_succ _)⟩
 
 theorem scOk_of_stack {sc sc' : Scope} (h : ScOk sc) (hs : sc'.stack = sc.stack) (hn : sc.n ≤ sc'.n) : ScOk sc' :=
@@ -1306,7 +1314,7 @@ theorem goodBuf_pushForEach {sc : Scope} {g : Bytes} (h : GoodBuf sc g) (v : Byt
   refine goodBuf_pushFrame h _ ?_
   intro kv hkv
   rcases frameSet_mem _ _ _ kv hkv with rfl | hkv
-  · exact hn _ (Or.inr (Or.inr (Or.inr rfl)))
+  · exact hn _ (Or.inr (Or.inr (Or.inr (Or.inl rfl))))
   · rcases frameSet_mem _ _ _ kv hkv with rfl | hkv
     · exact hn _ (Or.inr (Or.inr (Or.inl rfl)))
     · rcases frameSet_mem _ _ _ kv hkv with rfl | hkv
@@ -1321,10 +1329,14 @@ theorem goodBuf_pushForRange {sc : Scope} {g : Bytes} (h : GoodBuf sc g) (v : By
   rcases frameSet_mem _ _ _ kv hkv with rfl | hkv
   · exact hn _ (Or.inl rfl)
   · rcases frameSet_mem _ _ _ kv hkv with rfl | hkv
-    · exact hn _ (Or.inr (Or.inr (Or.inl rfl)))
+    · exact hn _ (Or.inr (Or.inr (Or.inr (Or.inl rfl))))
     · rcases frameSet_mem _ _ _ kv hkv with rfl | hkv
-      · exact hn _ (Or.inl rfl)
-      · cases hkv
+      · exact hn _ (Or.inr (Or.inr (Or.inr (Or.inr rfl))))
+      · rcases frameSet_mem _ _ _ kv hkv with rfl | hkv
+        · exact hn _ (Or.inr (Or.inr (Or.inl rfl)))
+        · rcases frameSet_mem _ _ _ kv hkv with rfl | hkv
+          · exact hn _ (Or.inl rfl)
+          · cases hkv
 
 /-! ### what the translation does to the scope -/
 
@@ -2133,7 +2145,7 @@ theorem loop_ok {sc : Scope} (hs : ScOk sc) (hg : GoodBuf sc buf) (v : Bytes) (h
         BufIs buf e' (out ++ text) ∧ Keeps buf sc.n e e' := by
   have uL : IsUse b!"List" := Or.inr (Or.inl rfl)
   have uN : IsUse b!"Limit" := Or.inr (Or.inr (Or.inl rfl))
-  have uI : IsUse b!"Index" := Or.inr (Or.inr (Or.inr rfl))
+  have uI : IsUse b!"Index" := Or.inr (Or.inr (Or.inr (Or.inl rfl)))
   have u0 : IsUse [] := Or.inl rfl
   have ne_lv_xl : xl ≠ lv := by
     rw [hxl, hlv]; intro e; have := (jsname_inj_all hv hv uL u0 e).2.1; simp at this
@@ -2313,7 +2325,18 @@ theorem pushForRange_lookup (sc : Scope) (x k : Bytes) (hk : k.contains 36 = fal
     cases h : ((Scope.kIndex ++ x) == k) with
     | false => rfl
     | true => have := C04c.beq_true_eq h; subst this; simp_all
-  simp only [Scope.pushForRange, Scope.lookup, Scope.lookupIn, C04c.frameGet_frameSet, hlim, hidx, Bool.false_eq_true, if_false]
+  have hstep : ((Scope.kStep ++ x) == k) = false := by
+    have : (Scope.kStep ++ x).contains 36 = true := by simp [Scope.kStep]
+    cases h : ((Scope.kStep ++ x) == k) with
+    | false => rfl
+    | true => have := C04c.beq_true_eq h; subst this; simp_all
+  have hvar : ((Scope.kVar ++ x) == k) = false := by
+    have : (Scope.kVar ++ x).contains 36 = true := by simp [Scope.kVar]
+    cases h : ((Scope.kVar ++ x) == k) with
+    | false => rfl
+    | true => have := C04c.beq_true_eq h; subst this; simp_all
+  simp only [Scope.pushForRange, Scope.lookup, Scope.lookupIn, C04c.frameGet_frameSet, hlim, hidx, hstep, hvar,
+    Bool.false_eq_true, if_false]
   by_cases h : (x == k) = true
   · simp [h]
   · simp [h, frameGet?]
@@ -2379,30 +2402,44 @@ theorem range_eval (env : SEnv) (p : Nat) (args : ExprList) (l : Expr) (a lim st
           simp [Spec.Eval.eval, hloop, Spec.Eval.evalList, h1, h2, h3, Spec.Eval.Out.bind, applyFn_range]
         | cons _ _ => simp [rangeLimit] at hl
 
-/-- the iterations from value `a` on: the JavaScript loop and `loopSpec` over the rest of the range agree -/
+/-- the iterations from value `a` (iteration number `idx`) on: the JavaScript loop and `loopSpec` over the rest of
+    the range agree -/
 theorem range_loop_ok {sc : Scope} (hs : ScOk sc) (hg : GoodBuf sc buf) (v : Bytes) (hv : v.contains 36 = false) (body : Block)
     (rb : JsStmts × Scope) (hrb : toBody ae buf body (sc.pushForRange v).2 = some rb) (ihb : BodyOk F ae buf body)
     (env : SEnv) (l s : Int) (hspos : 0 < s) (fuel last : Nat)
-    (lv xn : Bytes) (hlv : lv = Scope.jsname v [] (sc.n + 1)) (hxn : xn = Scope.jsname v b!"Limit" (sc.n + 1)) :
+    (lv xn xs xi : Bytes) (hlv : lv = Scope.jsname v [] (sc.n + 1)) (hxn : xn = Scope.jsname v b!"Limit" (sc.n + 1))
+    (hxs : xs = Scope.jsname v b!"Step" (sc.n + 1)) (hxi : xi = Scope.jsname v b!"Index" (sc.n + 1)) :
     ∀ (k : Nat) (a : Int) (idx : Nat) (e e' : JEnv) (out : Bytes),
       SoyVerif.Spec.JsSem.exact a = true → EnvRel sc env e → BufIs buf e out →
       e.locals.find? (·.1 == xn) = some (xn, .num l) →
+      e.locals.find? (·.1 == xs) = some (xs, .num s) →
+      e.locals.find? (·.1 == xi) = some (xi, .num idx) →
       e.locals.find? (·.1 == lv) = some (lv, .num a) →
-      execLoopStep (execStmts F fuel rb.1) lv xn (.num s) k e = .ok e' →
+      execLoopStep (execStmts F fuel rb.1) lv xn xs xi k e = .ok e' →
       ∃ text, Spec.Eval.loopSpec (refBlock F ae body) env v last (rangeItems a l s) idx = .val text ∧
         BufIs buf e' (out ++ text) ∧ Keeps buf sc.n e e' := by
   have uN : IsUse b!"Limit" := Or.inr (Or.inr (Or.inl rfl))
+  have uS : IsUse b!"Step" := Or.inr (Or.inr (Or.inr (Or.inr rfl)))
+  have uI : IsUse b!"Index" := Or.inr (Or.inr (Or.inr (Or.inl rfl)))
   have u0 : IsUse [] := Or.inl rfl
   have ne_lv_xn : xn ≠ lv := by
     rw [hxn, hlv]; intro e; have := (jsname_inj_all hv hv uN u0 e).2.1; simp at this
+  have ne_lv_xs : xs ≠ lv := by
+    rw [hxs, hlv]; intro e; have := (jsname_inj_all hv hv uS u0 e).2.1; simp at this
+  have ne_lv_xi : xi ≠ lv := by
+    rw [hxi, hlv]; intro e; have := (jsname_inj_all hv hv uI u0 e).2.1; simp at this
+  have ne_xi_xn : xn ≠ xi := by
+    rw [hxn, hxi]; intro e; have := (jsname_inj_all hv hv uN uI e).2.1; simp at this
+  have ne_xi_xs : xs ≠ xi := by
+    rw [hxs, hxi]; intro e; have := (jsname_inj_all hv hv uS uI e).2.1; simp at this
   have nb : ∀ u, IsUse u → Scope.jsname v u (sc.n + 1) ≠ buf :=
     fun u hu e => hg.1 v u (sc.n + 1) hv hu (Nat.lt_succ_self _) e.symm
   obtain ⟨hs1, _, hn1⟩ := scOk_pushForRange hs v hv
   intro k
   induction k with
-  | zero => intro a idx e e' out _ _ _ _ _ hx; simp [execLoopStep] at hx
+  | zero => intro a idx e e' out _ _ _ _ _ _ _ hx; simp [execLoopStep] at hx
   | succ k ih =>
-    intro a idx e e' out hexa hrel hb h2 h3 hx
+    intro a idx e e' out hexa hrel hb h2 hst hix h3 hx
     unfold execLoopStep at hx
     obtain ⟨c, hc, hx⟩ := withVal_ok hx
     rw [cond_lt h3 h2] at hc
@@ -2417,39 +2454,58 @@ theorem range_loop_ok {sc : Scope} (hs : ScOk sc) (hg : GoodBuf sc buf) (v : Byt
         envRel_forrange sc env e v a hrel hexa (by rw [hlv] at h3; exact h3) _
       obtain ⟨ti, hti, hb_b, hk_b⟩ := ihb fuel _ rb _ _ eb out hrb hs1 (goodBuf_pushForRange hg v hv) hrel_a hb hbody
       rw [hn1] at hk_b
-      have oI : Old (sc.n + 1) lv := by rw [hlv]; exact old_jsname hv u0 (Nat.le_refl _)
+      have oV : Old (sc.n + 1) lv := by rw [hlv]; exact old_jsname hv u0 (Nat.le_refl _)
       have oN : Old (sc.n + 1) xn := by rw [hxn]; exact old_jsname hv uN (Nat.le_refl _)
+      have oS : Old (sc.n + 1) xs := by rw [hxs]; exact old_jsname hv uS (Nat.le_refl _)
+      have oI : Old (sc.n + 1) xi := by rw [hxi]; exact old_jsname hv uI (Nat.le_refl _)
       have h3b : eb.locals.find? (·.1 == lv) = some (lv, .num a) := by
-        rw [hk_b.2.2 lv (by rw [hlv]; exact nb _ (Or.inl rfl)) oI]; exact h3
+        rw [hk_b.2.2 lv (by rw [hlv]; exact nb _ u0) oV]; exact h3
       have h2b : eb.locals.find? (·.1 == xn) = some (xn, .num l) := by
         rw [hk_b.2.2 xn (by rw [hxn]; exact nb _ uN) oN]; exact h2
-      -- `lv += s`
-      rw [eval_local h3b] at hx
+      have hsb : eb.locals.find? (·.1 == xs) = some (xs, .num s) := by
+        rw [hk_b.2.2 xs (by rw [hxs]; exact nb _ uS) oS]; exact hst
+      have hib : eb.locals.find? (·.1 == xi) = some (xi, .num idx) := by
+        rw [hk_b.2.2 xi (by rw [hxi]; exact nb _ uI) oI]; exact hix
+      -- `lv += step`
+      obtain ⟨r, hr, hx⟩ := withVal_ok hx
+      have hadd : eval eb (.bin .add (.local lv) (.local xs)) = numRes (a + s) := by
+        simp [eval, JOut.bind, binop, h3b, hsb]
+      rw [hadd] at hr
+      obtain ⟨hexa', rfl⟩ := C04c.numRes_val hr
+      -- `index++`
+      have hib2 : (setLocal eb lv (.num (a + s))).locals.find? (·.1 == xi) = some (xi, .num idx) := by
+        rw [find_setLocal_ne eb lv xi _ ne_lv_xi]; exact hib
+      rw [eval_local hib2] at hx
       obtain ⟨v0, hv0, hx⟩ := withVal_ok hx
       simp only [JOut.val.injEq] at hv0
       subst hv0
-      obtain ⟨d, hd, hx⟩ := withVal_ok hx
-      have hd' : d = .num s := by
-        unfold eval at hd
-        split at hd
-        · simp only [JOut.val.injEq] at hd; exact hd.symm
-        · cases hd
-      subst hd'
-      obtain ⟨r, hr, hx⟩ := withVal_ok hx
-      simp only [binop] at hr
-      obtain ⟨hexa', rfl⟩ := C04c.numRes_val hr
+      obtain ⟨r2, hr2, hx⟩ := withVal_ok hx
+      simp only [incr] at hr2
+      obtain ⟨_, rfl⟩ := C04c.numRes_val hr2
+      have hcast : ((idx : Int) + 1) = ((idx + 1 : Nat) : Int) := by omega
+      rw [hcast] at hx
       have hk_c : Keeps buf sc.n eb (setLocal eb lv (.num (a + s))) := by
         rw [hlv]; exact keeps_setNew buf sc.n eb hv u0 (Nat.lt_succ_self _) _
-      have hk_ec : Keeps buf sc.n e (setLocal eb lv (.num (a + s))) :=
-        ((hk_b.mono (Nat.le_succ _))).trans hk_c (Nat.le_refl _)
+      have hk_d : Keeps buf sc.n (setLocal eb lv (.num (a + s)))
+          (setLocal (setLocal eb lv (.num (a + s))) xi (.num ((idx + 1 : Nat) : Int))) := by
+        rw [hxi]; exact keeps_setNew buf sc.n _ hv uI (Nat.lt_succ_self _) _
+      have hk_ec := ((hk_b.mono (Nat.le_succ _)).trans hk_c (Nat.le_refl _)).trans hk_d (Nat.le_refl _)
       have hrel_c := envRel_keep (sc' := sc) hrel hk_ec hs.2 (Nat.le_refl _) hg.2 rfl
-      have hb_c : BufIs buf (setLocal eb lv (.num (a + s))) (out ++ ti) := by
+      have hb_c : BufIs buf (setLocal (setLocal eb lv (.num (a + s))) xi (.num ((idx + 1 : Nat) : Int))) (out ++ ti) := by
         unfold BufIs
-        rw [find_setLocal_ne eb lv buf _ (by rw [hlv]; exact (nb _ (Or.inl rfl)).symm)]
+        rw [find_setLocal_ne _ xi buf _ (by rw [hxi]; exact (nb _ uI).symm),
+          find_setLocal_ne eb lv buf _ (by rw [hlv]; exact (nb _ u0).symm)]
         exact hb_b
-      have h2c : (setLocal eb lv (.num (a + s))).locals.find? (·.1 == xn) = some (xn, .num l) := by
-        rw [find_setLocal_ne eb lv xn _ ne_lv_xn]; exact h2b
-      obtain ⟨tr, htr, hb', hk'⟩ := ih (a + s) (idx + 1) _ e' (out ++ ti) hexa' hrel_c hb_c h2c (find_setLocal_eq _ _ _) hx
+      have h2c : (setLocal (setLocal eb lv (.num (a + s))) xi (.num ((idx + 1 : Nat) : Int))).locals.find? (·.1 == xn) =
+          some (xn, .num l) := by
+        rw [find_setLocal_ne _ xi xn _ ne_xi_xn, find_setLocal_ne eb lv xn _ ne_lv_xn]; exact h2b
+      have hsc : (setLocal (setLocal eb lv (.num (a + s))) xi (.num ((idx + 1 : Nat) : Int))).locals.find? (·.1 == xs) =
+          some (xs, .num s) := by
+        rw [find_setLocal_ne _ xi xs _ ne_xi_xs, find_setLocal_ne eb lv xs _ ne_lv_xs]; exact hsb
+      have h3c : (setLocal (setLocal eb lv (.num (a + s))) xi (.num ((idx + 1 : Nat) : Int))).locals.find? (·.1 == lv) =
+          some (lv, .num (a + s)) := by
+        rw [find_setLocal_ne _ xi lv _ ne_lv_xi.symm]; exact find_setLocal_eq _ _ _
+      obtain ⟨tr, htr, hb', hk'⟩ := ih (a + s) (idx + 1) _ e' (out ++ ti) hexa' hrel_c hb_c h2c hsc (find_setLocal_eq _ _ _) h3c hx
       refine ⟨ti ++ tr, ?_, by rw [← List.append_assoc]; exact hb', hk_ec.trans hk' (Nat.le_refl _)⟩
       rw [rangeItems_step a l s hspos hlt]
       simp only [Spec.Eval.loopSpec, hti, htr, Spec.Eval.Out.bind]
@@ -2460,8 +2516,8 @@ theorem range_loop_ok {sc : Scope} (hs : ScOk sc) (hg : GoodBuf sc buf) (v : Byt
       exact ⟨[], by simp [Spec.Eval.loopSpec], by simpa using hb, Keeps.refl _ _ _⟩
 
 /-- a loop that completes has compared two numbers -/
-theorem loop_first {body : JEnv → SRes} {i lim : Bytes} {incr : JsExpr} {k : Nat} {e e' : JEnv} {vi vl : JVal}
-    (hx : execLoopStep body i lim incr k e = .ok e') (h1 : e.locals.find? (·.1 == i) = some (i, vi))
+theorem loop_first {body : JEnv → SRes} {i lim step idx : Bytes} {k : Nat} {e e' : JEnv} {vi vl : JVal}
+    (hx : execLoopStep body i lim step idx k e = .ok e') (h1 : e.locals.find? (·.1 == i) = some (i, vi))
     (h2 : e.locals.find? (·.1 == lim) = some (lim, vl)) : ∃ a l, vi = .num a ∧ vl = .num l := by
   cases k with
   | zero => simp [execLoopStep] at hx
@@ -2484,16 +2540,24 @@ theorem range_ok (p : Nat) (v : Bytes) (list : Expr) (body : Block) (ihb : BodyO
   obtain ⟨hv, _, args, l, c, jl, ji, rbv, pc, hr, hl, hinc, hpos, hjl, hji, hrb, rfl⟩ := rangeJoin_some h
   obtain ⟨pf, rfl⟩ := isRangeCall_some hr
   have uN : IsUse b!"Limit" := Or.inr (Or.inr (Or.inl rfl))
+  have uS : IsUse b!"Step" := Or.inr (Or.inr (Or.inr (Or.inr rfl)))
+  have uI : IsUse b!"Index" := Or.inr (Or.inr (Or.inr (Or.inl rfl)))
   have u0 : IsUse [] := Or.inl rfl
   have nb : ∀ u, IsUse u → Scope.jsname v u (sc.n + 1) ≠ buf :=
     fun u hu e => hg.1 v u (sc.n + 1) hv hu (Nat.lt_succ_self _) e.symm
-  have ne_lv_xn : (sc.pushForRange v).1.2 ≠ (sc.pushForRange v).1.1 := by
-    intro e
-    have := (jsname_inj_all hv hv uN u0 e).2.1
-    simp at this
+  -- the four names, and that they differ
+  have hd : ∀ {u u' : Bytes}, IsUse u → IsUse u' → u ≠ u' → Scope.jsname v u (sc.n + 1) ≠ Scope.jsname v u' (sc.n + 1) :=
+    fun hu hu' hne e => hne (jsname_inj_all hv hv hu hu' e).2.1
+  have hNS : Scope.jsname v b!"Limit" (sc.n + 1) ≠ Scope.jsname v b!"Step" (sc.n + 1) := hd uN uS (by decide)
+  have hNV : Scope.jsname v b!"Limit" (sc.n + 1) ≠ Scope.jsname v [] (sc.n + 1) := hd uN u0 (by decide)
+  have hNI : Scope.jsname v b!"Limit" (sc.n + 1) ≠ Scope.jsname v b!"Index" (sc.n + 1) := hd uN uI (by decide)
+  have hSV : Scope.jsname v b!"Step" (sc.n + 1) ≠ Scope.jsname v [] (sc.n + 1) := hd uS u0 (by decide)
+  have hSI : Scope.jsname v b!"Step" (sc.n + 1) ≠ Scope.jsname v b!"Index" (sc.n + 1) := hd uS uI (by decide)
+  have hVI : Scope.jsname v [] (sc.n + 1) ≠ Scope.jsname v b!"Index" (sc.n + 1) := hd u0 uI (by decide)
   simp only [rangeStmts, JsStmts.one, execStmts] at hx
   obtain ⟨e1, h1, hx⟩ := sres_bind_ok hx
   obtain ⟨e2, h2, hx⟩ := sres_bind_ok hx
+  obtain ⟨e3, h3, hx⟩ := sres_bind_ok hx
   simp only [SRes.ok.injEq] at hx
   subst hx
   -- `var vLimit = limit;`
@@ -2502,33 +2566,63 @@ theorem range_ok (p : Nat) (v : Bytes) (list : Expr) (body : Block) (ihb : BodyO
   simp only [SRes.ok.injEq] at h1
   subst h1
   obtain ⟨vlim, hvlim, hlimj⟩ := C04c.gen_correct_refs_partial sc env jenv hrel l jl jlim hjl hjlim
-  have k1 : Keeps buf sc.n jenv (setLocal jenv (sc.pushForRange v).1.2 jlim) :=
-    keeps_setNew buf sc.n jenv hv uN (Nat.lt_succ_self _) _
-  have hrel1 := envRel_keep (sc' := sc) hrel k1 hs.2 (Nat.le_refl _) hg.2 rfl
-  -- `for (var v = init; …`
+  -- `var vStep = c;`
   simp only [execStmt] at h2
-  obtain ⟨jinit, hjinit, h2⟩ := withVal_ok h2
-  obtain ⟨vinit, hvinit, hinitj⟩ := C04c.gen_correct_refs_partial sc env _ hrel1 _ ji jinit hji hjinit
-  have k2 : Keeps buf sc.n (setLocal jenv (sc.pushForRange v).1.2 jlim)
-      (setLocal (setLocal jenv (sc.pushForRange v).1.2 jlim) (sc.pushForRange v).1.1 jinit) :=
-    keeps_setNew buf sc.n _ hv u0 (Nat.lt_succ_self _) _
+  obtain ⟨jstep, hjstep, h2⟩ := withVal_ok h2
+  simp only [SRes.ok.injEq] at h2
+  subst h2
+  have hstepv : jstep = .num c := by
+    unfold eval at hjstep
+    split at hjstep
+    · simp only [JOut.val.injEq] at hjstep; exact hjstep.symm
+    · cases hjstep
+  subst hstepv
+  have k1 : Keeps buf sc.n jenv (setLocal jenv (Scope.jsname v b!"Limit" (sc.n + 1)) jlim) :=
+    keeps_setNew buf sc.n jenv hv uN (Nat.lt_succ_self _) _
+  have k2 : Keeps buf sc.n _ (setLocal (setLocal jenv (Scope.jsname v b!"Limit" (sc.n + 1)) jlim)
+      (Scope.jsname v b!"Step" (sc.n + 1)) (.num c)) := keeps_setNew buf sc.n _ hv uS (Nat.lt_succ_self _) _
   have k12 := k1.trans k2 (Nat.le_refl _)
   have hrel2 := envRel_keep (sc' := sc) hrel k12 hs.2 (Nat.le_refl _) hg.2 rfl
-  have hfl : (setLocal (setLocal jenv (sc.pushForRange v).1.2 jlim) (sc.pushForRange v).1.1 jinit).locals.find?
-      (·.1 == (sc.pushForRange v).1.2) = some ((sc.pushForRange v).1.2, jlim) := by
-    rw [find_setLocal_ne _ _ _ _ ne_lv_xn]; exact find_setLocal_eq _ _ _
-  obtain ⟨a, lim, rfl, rfl⟩ := loop_first h2 (find_setLocal_eq _ _ _) hfl
+  -- `for (var v = init, vIndex = 0; …`
+  simp only [execStmt] at h3
+  obtain ⟨jinit, hjinit, h3⟩ := withVal_ok h3
+  obtain ⟨vinit, hvinit, hinitj⟩ := C04c.gen_correct_refs_partial sc env _ hrel2 _ ji jinit hji hjinit
+  have k3 : Keeps buf sc.n _ (setLocal (setLocal (setLocal jenv (Scope.jsname v b!"Limit" (sc.n + 1)) jlim)
+      (Scope.jsname v b!"Step" (sc.n + 1)) (.num c)) (Scope.jsname v [] (sc.n + 1)) jinit) :=
+    keeps_setNew buf sc.n _ hv u0 (Nat.lt_succ_self _) _
+  have k4 : Keeps buf sc.n _ (setLocal (setLocal (setLocal (setLocal jenv (Scope.jsname v b!"Limit" (sc.n + 1)) jlim)
+      (Scope.jsname v b!"Step" (sc.n + 1)) (.num c)) (Scope.jsname v [] (sc.n + 1)) jinit)
+      (Scope.jsname v b!"Index" (sc.n + 1)) (.num 0)) := keeps_setNew buf sc.n _ hv uI (Nat.lt_succ_self _) _
+  have k1234 := (k12.trans k3 (Nat.le_refl _)).trans k4 (Nat.le_refl _)
+  have hrel4 := envRel_keep (sc' := sc) hrel k1234 hs.2 (Nat.le_refl _) hg.2 rfl
+  have fN : (setLocal (setLocal (setLocal (setLocal jenv (Scope.jsname v b!"Limit" (sc.n + 1)) jlim)
+      (Scope.jsname v b!"Step" (sc.n + 1)) (.num c)) (Scope.jsname v [] (sc.n + 1)) jinit)
+      (Scope.jsname v b!"Index" (sc.n + 1)) (.num 0)).locals.find? (·.1 == Scope.jsname v b!"Limit" (sc.n + 1)) =
+      some (Scope.jsname v b!"Limit" (sc.n + 1), jlim) := by
+    rw [find_setLocal_ne _ _ _ _ hNI, find_setLocal_ne _ _ _ _ hNV, find_setLocal_ne _ _ _ _ hNS]; exact find_setLocal_eq _ _ _
+  have fS : (setLocal (setLocal (setLocal (setLocal jenv (Scope.jsname v b!"Limit" (sc.n + 1)) jlim)
+      (Scope.jsname v b!"Step" (sc.n + 1)) (.num c)) (Scope.jsname v [] (sc.n + 1)) jinit)
+      (Scope.jsname v b!"Index" (sc.n + 1)) (.num 0)).locals.find? (·.1 == Scope.jsname v b!"Step" (sc.n + 1)) =
+      some (Scope.jsname v b!"Step" (sc.n + 1), .num c) := by
+    rw [find_setLocal_ne _ _ _ _ hSI, find_setLocal_ne _ _ _ _ hSV]; exact find_setLocal_eq _ _ _
+  have fV : (setLocal (setLocal (setLocal (setLocal jenv (Scope.jsname v b!"Limit" (sc.n + 1)) jlim)
+      (Scope.jsname v b!"Step" (sc.n + 1)) (.num c)) (Scope.jsname v [] (sc.n + 1)) jinit)
+      (Scope.jsname v b!"Index" (sc.n + 1)) (.num 0)).locals.find? (·.1 == Scope.jsname v [] (sc.n + 1)) =
+      some (Scope.jsname v [] (sc.n + 1), jinit) := by
+    rw [find_setLocal_ne _ _ _ _ hVI]; exact find_setLocal_eq _ _ _
+  obtain ⟨a, lim, rfl, rfl⟩ := loop_first h3 fV fN
   obtain ⟨rfl, hexa⟩ := C04c.toJsV_num hinitj
   obtain ⟨rfl, _⟩ := C04c.toJsV_num hlimj
-  have hb2 : BufIs buf (setLocal (setLocal jenv (sc.pushForRange v).1.2 (.num lim)) (sc.pushForRange v).1.1 (.num a)) out := by
-    have nb1 : (sc.pushForRange v).1.1 ≠ buf := nb [] u0
-    have nb2 : (sc.pushForRange v).1.2 ≠ buf := nb b!"Limit" uN
+  have hb4 : BufIs buf (setLocal (setLocal (setLocal (setLocal jenv (Scope.jsname v b!"Limit" (sc.n + 1)) (.num lim))
+      (Scope.jsname v b!"Step" (sc.n + 1)) (.num c)) (Scope.jsname v [] (sc.n + 1)) (.num a))
+      (Scope.jsname v b!"Index" (sc.n + 1)) (.num 0)) out := by
     unfold BufIs
-    rw [find_setLocal_ne _ (sc.pushForRange v).1.1 buf _ nb1.symm, find_setLocal_ne _ (sc.pushForRange v).1.2 buf _ nb2.symm]
+    rw [find_setLocal_ne _ _ buf _ (nb _ uI).symm, find_setLocal_ne _ _ buf _ (nb _ u0).symm,
+      find_setLocal_ne _ _ buf _ (nb _ uS).symm, find_setLocal_ne _ _ buf _ (nb _ uN).symm]
     exact hb
   obtain ⟨text, ht, hb', hk'⟩ := range_loop_ok F ae buf hs hg v hv body rbv hrb ihb env lim c hpos fuel
-    ((rangeItems a lim c).length - 1) _ _ rfl rfl fuel a 0 _ e2 out hexa hrel2 hb2 hfl (find_setLocal_eq _ _ _) h2
-  have hk := k12.trans hk' (Nat.le_refl _)
+    ((rangeItems a lim c).length - 1) _ _ _ _ rfl rfl rfl rfl fuel a 0 _ e3 out hexa hrel4 hb4 fN fS (find_setLocal_eq _ _ _) fV h3
+  have hk := k1234.trans hk' (Nat.le_refl _)
   have hst : rbv.2.pop.stack = sc.stack := by
     obtain ⟨p1, p2, _⟩ := scOk_pushForRange hs v hv
     obtain ⟨_, b2, _⟩ := toBody_scope ae body buf _ rbv hrb p1
@@ -2564,7 +2658,7 @@ theorem foreach_core {sc : Scope} (hs : ScOk sc) (hg : GoodBuf sc buf) (v : Byte
           BufIs buf e' (out ++ text) ∧ Keeps buf sc.n e2 e') := by
   have uL : IsUse b!"List" := Or.inr (Or.inl rfl)
   have uN : IsUse b!"Limit" := Or.inr (Or.inr (Or.inl rfl))
-  have uI : IsUse b!"Index" := Or.inr (Or.inr (Or.inr rfl))
+  have uI : IsUse b!"Index" := Or.inr (Or.inr (Or.inr (Or.inl rfl)))
   have nb : ∀ u, IsUse u → Scope.jsname v u (sc.n + 1) ≠ buf :=
     fun u hu e => hg.1 v u (sc.n + 1) hv hu (Nat.lt_succ_self _) e.symm
   have ne_xn_xl : xl ≠ xn := by
@@ -3255,7 +3349,7 @@ def sampleRange : CmdList :=
 
 set_option maxRecDepth 8000 in
 example : (toCmds .off b!"output" sampleRange ⟨[[]], 0⟩).map (fun r => printPieces (renderStmts 1 r.1)) = some
-    b!"  var i$Limit1 = opt_data.n;\n  for (var i$1 = 1; i$1 < i$Limit1; i$1 += 2) {\n    output += i$1;\n    output += ',';\n  }\n  output += opt_data.i;\n" := rfl
+    b!"  var i$Limit1 = opt_data.n;\n  var i$Step1 = 2;\n  for (var i$1 = 1, i$Index1 = 0; i$1 < i$Limit1; i$1 += i$Step1, i$Index1++) {\n    output += i$1;\n    output += ',';\n  }\n  output += opt_data.i;\n" := rfl
 
 example : (match toCmds .off b!"output" sampleRange ⟨[[]], 0⟩ with
     | some r => (match execStmts sampleF 10 r.1 ⟨[(b!"n", .num 6), (b!"i", .str b!"p")], none, [(b!"output", .str [])]⟩ with
